@@ -4,6 +4,8 @@ import ast
 from .common import *  # noqa
 
 GONE = ('CLOSED', 'FAILED', 'DETACHED')
+MUT_LIST = ('append', 'remove', 'insert', 'extend', 'pop', 'clear', 'sort', 'reverse')
+TARGET_STATES = ('NEW', 'NEWRESOLVE', 'SUCCEEDED')
 
 
 def TS(run):
@@ -274,6 +276,28 @@ def r07_2(run):
                         k += 1
                         run.ob('R07.2', u, n, "a stream's circuit is assigned only by Stream.__init__/update", inside, slot='circuit-assign@%s' % u.short,
                                message='%s assigns a stream\'s circuit' % u.short)
+    # nobody else touches a circuit's stream list, by any spelling
+    for u in run.idx.all_units():
+        inside = u.owner_cls is sc and top_of(u).name in ('__init__', 'update')
+        for n in walk_unit(u):
+            if isinstance(n, ast.Call):
+                d = dotted(n.func) or ''
+                parts = d.split('.')
+                if len(parts) >= 3 and parts[-2] == 'streams' and parts[-1] in MUT_LIST and parts[:-2] != ['self']:
+                    ok = inside and parts[:-2] == ['self', 'circuit']
+                    if not ok and not (parts[-3] in ('circuit', 'circ', 'c', '_circuit')):
+                        k += 1
+                        run.ob('R07.2', u, n, "a circuit's stream list is edited only through Stream.update", False, slot='streams-edit2@%s' % u.short,
+                               message='%s edits %s' % (u.short, d))
+            elif isinstance(n, (ast.Assign, ast.AugAssign, ast.Delete)):
+                tg = n.targets if isinstance(n, (ast.Assign, ast.Delete)) else [n.target]
+                for t in tg:
+                    base = t.value if isinstance(t, ast.Subscript) else t
+                    if isinstance(base, ast.Attribute) and base.attr == 'streams' and dotted(base.value) != 'self':
+                        k += 1
+                        run.ob('R07.2', u, n, "a circuit's stream list is never replaced or cut from outside", False, slot='streams-rebind@%s' % u.short,
+                               message='%s overwrites %s: streams still attached lose their back-reference entry and their later '
+                                       'CLOSED/FAILED/DETACHED raises in Stream.update (stream never removed)' % (u.short, src(base)))
     run.floor('R07.2', 'attachment write sites', k, 8)
     # Circuit.streams rebound only in Circuit.__init__
     for u in class_units(run.idx, circ):
@@ -305,6 +329,28 @@ def r07_4(run):
                         vv = d[1] if d and d[0] == 'expr' else v
                     ok2 = isinstance(vv, ast.Call) and (dotted(vv.func) or '').endswith('find_keywords') and vv.args and dotted(vv.args[0]) == p
                     run.ob('R07.4', up, n.ast, '%s := find_keywords(event)' % field, ok2, slot='%s:%s:value' % (name, field), message='%s assigned %s' % (field, src(vv)))
+    # a stream learns its target from the first event that can carry it (instances confirmed on
+    # today's tree: NEW, NEWRESOLVE, SUCCEEDED - the latter for streams first seen in a snapshot)
+    su = run.idx.find_method(stream_cls(run), 'update')
+    gsu = cfg_of(su)
+    for S in TARGET_STATES:
+        def hook(node, val, trail, S=S):
+            a = node.ast
+            r = eval_small(a, {'self.state': S, 'self.target_host': None, 'self._addrmap': None})
+            if r is not UNKNOWN and (mentions(a, 'self.state') or mentions(a, 'self.target_host') or mentions(a, 'self._addrmap')):
+                # target_host is assigned on the way: only decide before that
+                if mentions(a, 'self.target_host') and any(n.kind == 'stmt' and assign_to(n.ast, 'self.target_host') is not None for n, _ in trail):
+                    return None
+                return bool(r)
+            return None
+        for p_ in gsu.paths(eval_hook=hook, loop_bound=1, follow_exc=False, pure_calls=('self._notify', 'self._create_flags', 'self.maybe_call_closing_deferred')):
+            run.paths_enumerated += 1
+            if p_.exit == 'raise':
+                continue
+            th = any(n.kind == 'stmt' and assign_to(n.ast, 'self.target_host') is not None for n, _ in p_.steps)
+            tp = any(n.kind == 'stmt' and assign_to(n.ast, 'self.target_port') is not None for n, _ in p_.steps)
+            run.ob('R07.4', su, su.node, 'a stream whose target is unknown learns host and port from a %s event' % S, th and tp, slot='target:%s' % S,
+                   message='Stream.update[%s] with target_host None leaves the target unset (streams first seen in this state keep target (None, 0))' % S)
     # Circuit path handling
     cu = run.idx.find_method(circuit_cls(run), 'update')
     g = cfg_of(cu)
